@@ -94,7 +94,11 @@ def settle (d : DS) (implObs : String) : DS × String × List String :=
       match parseAnn implObs with
       | some (_, g) =>
         if after = .working ∧ g < floor then [s!"C15 interval-floor gap={g} floor={floor}"]
-        else if after = .notWorking ∧ g < lower then [s!"C16 retry-too-early gap={g} min={lower}"]
+        else if after = .notWorking ∧ g < lower then
+          [s!"C16 retry-too-early gap={g} min={lower}"] ++
+          -- earlier than the pending retry AND closer to the previous announce than the interval floor:
+          -- an event-less announce that no timer of the announcer accounts for (C15 pacing)
+          (if g < floor then [s!"C15 interval-floor-after-error gap={g} floor={floor} retry={lower}"] else [])
         else []
       | none =>
         if implObs.startsWith "stuck" then
